@@ -637,7 +637,7 @@ def run(ctx):
         "rejection in the checked build = any exception (the exception type is recorded as outcome_threw_* / at_out_of_range_threw_*, not judged)",
         "TCB_SPAN_TERMINATE_ON_CONTRACT_VIOLATION (the default without NDEBUG) evaluates the same TCB_SPAN_EXPECT conditions and is not run separately",
         "reversed pointer pairs, null pointers with non-zero counts and counts larger than the storage behind the pointer are undefined preconditions and are not exercised",
-        "comparison operators, as_bytes/as_writable_bytes, get<N>/tuple_size and the deprecated operator() are not part of the statement and are not judged",
+        "comparison operators, as_bytes/as_writable_bytes and tuple_size/tuple_element are not part of the statement and are not judged (operator() and get<N> are enumerated)",
         "bounds: parent sizes <= %d; arguments outside the alphabet A(n) (e.g. arbitrary values between n+3 and 2^31) are not executed" % b["nmax"],
     ]
 
